@@ -39,7 +39,9 @@ def spec_unique(tier):
 
 
 SH_WHEN = [{"O1": "whenall", "O2": "get"}, {"O1": "whenall", "O2": "copy_drop"}, {"O1": "whenall", "O2": "whenall"},
-           {"O1": "whenall", "O2": "get_const", "O3": "get"}]
+           {"O1": "whenall", "O2": "get_const", "O3": "get"},
+           # a coroutine awaiting the shared state together with an already fulfilled one (multi-await counter fix-up)
+           {"O1": "await2"}, {"O1": "await2", "O2": "await2"}, {"O1": "await2", "O2": "get"}]
 SH_OPS = ["then_inline", "then_exec", "subscribe", "share", "copy_drop", "ready", "get", "get_const"]
 
 
